@@ -139,7 +139,7 @@ impl ClosePositionsStrategy for TestStrategy {
         InstrumentIndex: 'a,
     {
         close_open_positions_with_market_orders(&self.id, state, filter, |state| {
-            ClientOrderId::new(format!("close{}", state.key.index()))
+            ClientOrderId::new(format!("{}", 9000 + state.key.index()))
         })
     }
 }
@@ -158,7 +158,8 @@ impl OnTradingDisabled<HistoricalClock, State, Txs, TestRisk> for TestStrategy {
     }
 }
 
-/// Risk manager refusing exactly the requests whose client order id starts with `R`.
+/// Risk manager refusing exactly the requests whose client order id starts with `R` or is a number
+/// >= 5000.
 #[derive(Debug, Default)]
 pub struct TestRisk;
 
@@ -175,7 +176,9 @@ impl RiskManager for TestRisk {
         impl IntoIterator<Item = RiskRefused<OrderRequestCancel<ExchangeIndex, InstrumentIndex>>>,
         impl IntoIterator<Item = RiskRefused<OrderRequestOpen<ExchangeIndex, InstrumentIndex>>>,
     ) {
-        let refuse = |cid: &ClientOrderId| cid.0.starts_with('R');
+        let refuse = |cid: &ClientOrderId| {
+            cid.0.starts_with('R') || cid.0.parse::<u64>().map(|n| n >= 5000).unwrap_or(false)
+        };
         let (rc, ac): (Vec<_>, Vec<_>) = cancels.into_iter().partition(|r| refuse(&r.key.cid));
         let (ro, ao): (Vec<_>, Vec<_>) = opens.into_iter().partition(|r| refuse(&r.key.cid));
         (
